@@ -704,7 +704,7 @@ struct GenOpts {
 fn gen_alias(rng: &mut Rng, name: &str) -> Option<String> {
     if rng.chance(1, 25) {
         // `a as a`
-        return Some(unraw(name).to_string());
+        return Some(name.to_string());
     }
     Some(rng.pick(ALIASES).to_string())
 }
@@ -1219,6 +1219,13 @@ fn corr_source(o: &mut Outcome, decls: &[Decl], c: &HCfg, full: bool, what: &str
                 for sp in 0..3 {
                     o.push("corr", "imp.share", format!("imp.share {} {} {}", SPNAMES[sp], it, jt), (s.share[i][j][sp] as u8).to_string(), desc.clone(), true);
                     o.count(&format!("source:share_prefix {}: {}", SPNAMES[sp], s.share[i][j][sp]));
+                    // `merge` is only ever called on operands without comments (share_prefix refuses a `self` with one; the loop of
+                    // normalize_use_trees_with_granularity sets such items aside; theorem no_merge_across):
+                    // the model's comment flag of the result is exact on that domain only
+                    if attached[j].comment || attached[i].comment {
+                        o.count("source:merge skipped (an operand has a comment: unreachable)");
+                        continue;
+                    }
                     let ans = match &s.merged[i][j][sp] {
                         Some(u) => litem(&of_hook(u)),
                         None => "panic".into(),
